@@ -38,5 +38,4 @@ func (a *A) lockRules(rel, typ string) {
 		a.anchorFail("no guard table for %s", qual(S))
 	}
 	a.ruleGuardedBy(S, t, guardExempt[qual(S)])
-	a.ruleAtomicMix(S)
 }
